@@ -146,8 +146,8 @@ static int cmp_common(const void *a, const void *b, void *p)
     ncmp++;
     return (x > y) - (x < y);
 }
-/* two different functions: ascending returns arbitrary magnitudes, descending +-1 */
-static int cmp_asc(const void *a, const void *b, void *p) { return 3 * cmp_common(a, b, p) * (1 + key_value(a) % 5); }
+/* two different functions: ascending returns magnitudes on the edges of the integer types (1 .. INT_MAX, INT_MIN), descending +-1 */
+static int cmp_asc(const void *a, const void *b, void *p) { return vrt_cmp_result(cmp_common(a, b, p), (unsigned)(key_value(a) * 5 + key_value(b) * 3) | (unsigned)key_value(a) << 16); }
 static int cmp_desc(const void *a, const void *b, void *p) { return -cmp_common(a, b, p); }
 
 /* ------------------------------------------------------------------ */
